@@ -1,10 +1,17 @@
-"""Deterministic schedules for concurrent stepping requests (C18).
+"""Deterministic schedules for concurrent request threads (C18, C08).
 
 Request threads run under sys.settrace; they park *before* executing an anchor line (the linearization
 points of the lock protocol) and are released one at a time by the controller, so the interleaving is
 forced, never raced.  The controller records one event per executed segment (anchor .. next anchor)
-with the lock flag and session clock sampled while every thread is parked."""
-import importlib, json, re, sys, threading
+with the lock flag and session clock sampled while every thread is parked.
+
+Finer grain inside the atomic test-and-set: while a thread is inside bptk.try_lock every source line it
+executes (in try_lock itself and in whatever it calls) is a scheduling point of kind "L"; these are
+implementation-internal steps with no event of their own - the event T is recorded when try_lock has
+returned.  So that a thread can be parked while it holds the mutex that serialises try_lock, the mutexes
+of BPTK_Py.bptk are replaced by cooperative ones: a thread that cannot take the mutex parks (kind "B")
+instead of blocking, and retries when the controller releases it."""
+import importlib, re, sys, threading, types
 
 ANCHORS = [  # (module, substring, action name)
     ("BPTK_Py.server.bptkServer", "instance.try_lock()", "T"),
@@ -14,10 +21,95 @@ ANCHORS = [  # (module, substring, action name)
     ("BPTK_Py.bptk", 'step = self.session_state["step"]', "R"),
     ("BPTK_Py.bptk", 'self.session_state["step"]=', "W"),
 ]
+INTERNAL = {"try_lock"}          # functions of BPTK_Py.bptk whose execution is scheduled line by line
+_tls = threading.local()         # .worker: the Worker a request thread belongs to
+_RealLock = threading.Lock
 
 
 class Machinery(Exception):
     pass
+
+
+class CoopLock:
+    """a mutex whose contention is a scheduling decision: a worker thread that finds it taken parks and retries"""
+
+    def __init__(self):
+        self._l = _RealLock()
+
+    def acquire(self, blocking=True, timeout=-1):
+        w = getattr(_tls, "worker", None)
+        if w is None:
+            return self._l.acquire(blocking, timeout)
+        while True:
+            if self._l.acquire(False):
+                return True
+            if not blocking:
+                return False
+            w._park("B")
+
+    def release(self):
+        self._l.release()
+
+    def locked(self):
+        return self._l.locked()
+
+    def __enter__(self):
+        self.acquire()
+        return self
+
+    def __exit__(self, *a):
+        self.release()
+
+
+class TracedState(dict):
+    """the session state of the instance under test: accesses to the advisory lock flag made inside try_lock are reported to
+    the controller, because they - not the return of try_lock - are the linearization points of the test-and-set"""
+
+    def __init__(self, data, ctl, key="lock"):
+        super().__init__(data)
+        self._ctl, self._key = ctl, key
+
+    def __getitem__(self, k):
+        v = dict.__getitem__(self, k)
+        if k == self._key:
+            w = getattr(_tls, "worker", None)
+            if w is not None and w.inside and not w.in_hook:
+                w.in_hook = True
+                try:
+                    self._ctl.flag_read(w)
+                finally:
+                    w.in_hook = False
+        return v
+
+    def get(self, k, default=None):
+        return self[k] if k in self else default
+
+    def __setitem__(self, k, v):
+        dict.__setitem__(self, k, v)
+        if k == self._key:
+            w = getattr(_tls, "worker", None)
+            if w is not None and w.inside and not w.in_hook:
+                w.in_hook = True
+                try:
+                    self._ctl.flag_written(w)
+                finally:
+                    w.in_hook = False
+
+
+def install_coop_locks():
+    """module-level mutexes of BPTK_Py.bptk and mutexes it creates later become cooperative"""
+    mod = importlib.import_module("BPTK_Py.bptk")
+    if getattr(mod, "_verif_coop", False):
+        return
+    lock_type = type(_RealLock())
+    for name, val in list(vars(mod).items()):
+        if isinstance(val, lock_type):
+            setattr(mod, name, CoopLock())
+    shim = types.SimpleNamespace(**{k: getattr(threading, k) for k in dir(threading) if not k.startswith("__")})
+    shim.Lock = CoopLock
+    if isinstance(getattr(mod, "threading", None), types.ModuleType):
+        mod.threading = shim
+    mod._verif_coop = True
 
 
 def anchor_map(anchors=None, required=None):
@@ -45,11 +137,15 @@ class Worker:
         self.go = threading.Event()
         self.parked_at = None       # action name of the anchor it is parked at
         self.finished = False
+        self.seen = {}              # frame id -> internal lines already used as a scheduling point in that call
+        self.in_hook = False
+        self.inside = []            # frame ids of the running calls of INTERNAL functions
         self.result = None
         self.error = None
         self.thread = threading.Thread(target=self._run, daemon=True)
 
     def _run(self):
+        _tls.worker = self
         sys.settrace(self._global_trace)
         try:
             self.result = self.fn()
@@ -57,26 +153,48 @@ class Worker:
             self.error = e
         finally:
             sys.settrace(None)
+            _tls.worker = None
             with self.ctl.cv:
                 self.finished = True
                 self.parked_at = None
                 self.ctl.cv.notify_all()
 
+    def _park(self, act):
+        with self.ctl.cv:
+            self.parked_at = act
+            self.go.clear()
+            self.ctl.cv.notify_all()
+        if not self.go.wait(timeout=60):
+            raise Machinery("worker %s never released" % self.rid)
+
     def _global_trace(self, frame, event, arg):
-        if frame.f_code.co_filename in self.ctl.files:
+        fn = frame.f_code.co_filename
+        if self.ctl.internal and fn == self.ctl.bptk_file and frame.f_code.co_name in INTERNAL:
+            self.inside.append(id(frame))
+            return self._internal_trace
+        if self.inside and "BPTK_Py" in fn:
+            return self._internal_trace         # something try_lock calls
+        if fn in self.ctl.files:
             return self._local_trace
         return None
+
+    def _internal_trace(self, frame, event, arg):
+        if event == "return":
+            self.seen.pop(id(frame), None)
+            if self.inside and self.inside[-1] == id(frame):
+                self.inside.pop()
+        elif event == "line" and self.inside:
+            seen = self.seen.setdefault(id(frame), set())
+            if frame.f_lineno not in seen:      # (CPython reports the line of a `with` statement again when the block is left)
+                seen.add(frame.f_lineno)
+                self._park("L")
+        return self._internal_trace
 
     def _local_trace(self, frame, event, arg):
         if event == "line":
             act = self.ctl.amap.get((frame.f_code.co_filename, frame.f_lineno))
             if act is not None and (self.ctl.park_filter is None or self.ctl.park_filter(frame)):
-                with self.ctl.cv:
-                    self.parked_at = act
-                    self.go.clear()
-                    self.ctl.cv.notify_all()
-                if not self.go.wait(timeout=60):
-                    raise Machinery("worker %s never released" % self.rid)
+                self._park(act)
         return self._local_trace
 
 
@@ -85,12 +203,22 @@ class Controller:
         self.park_filter = park_filter
         self.amap = anchor_map(anchors, required)
         self.files = {fn for fn, _ in self.amap}
+        self.internal = anchors is None     # the lock protocol of the server: try_lock is scheduled line by line
+        self.bptk_file = None
+        if self.internal:
+            install_coop_locks()
+            self.bptk_file = importlib.import_module("BPTK_Py.bptk").__file__
         self.cv = threading.Condition()
         self.workers = {}
         self.events = []        # [r, act, lock, clock]
         self.probe = probe      # () -> (lock, clock)
         self._last_act = {}
         self._last_state = probe()
+        self._pending = {}      # rid -> the action whose internal lines are still running
+        self._inflight = {}     # rid -> the anchor action it was last released from
+        self._lin_done = set()  # requests whose pending event was already recorded at the linearization point
+        self._lin_read = {}     # rid -> (position in events, state) at its last read of the lock flag inside try_lock
+        self.no_loop = set()    # requests that have no stepping loop at all (rejected bodies): no synthetic loop-exit Read
 
     def spawn(self, rid, fn):
         w = Worker(self, rid, fn)
@@ -103,26 +231,70 @@ class Controller:
             if not self.cv.wait_for(lambda: w.finished or w.parked_at is not None, timeout=60):
                 raise Machinery("worker %s neither parked nor finished" % w.rid)
 
-    def runnable(self):
-        return [r for r, w in self.workers.items() if not w.finished]
-
-    def advance(self, rid):
-        """let request rid execute the segment from its anchor to its next anchor (or to completion)"""
-        w = self.workers[rid]
-        if w.finished:
-            return False
-        act = w.parked_at
+    def _release(self, w):
         with self.cv:
             w.parked_at = None
         w.go.set()
         self._wait(w)
+
+    def runnable(self):
+        return [r for r, w in self.workers.items() if not w.finished]
+
+    # called by a worker thread (all others are parked) when it touches the lock flag inside try_lock
+    def flag_read(self, w):
+        self._lin_read[w.rid] = (len(self.events), self.probe())        # a refusal is decided here
+
+    def flag_written(self, w):
+        if w.rid in self._lin_done:
+            return
+        lock, clock = self.probe()                                      # a successful test-and-set takes effect here
+        self.events.append({"r": w.rid, "act": self._inflight.get(w.rid, "T"), "lock": lock, "clock": clock})
+        self._last_act[w.rid] = self.events[-1]["act"]
+        self._last_state = (lock, clock)
+        self._lin_done.add(w.rid)
+
+    def advance(self, rid, fine=False):
+        """let request rid execute the segment from its anchor to its next anchor (or to completion).
+        fine=False: a try_lock is one step (its internal lines are run through); fine=True: each internal line is a step"""
+        w = self.workers[rid]
+        if w.finished:
+            return False
+        act = w.parked_at
+        if act not in ("L", "B"):
+            self._inflight[rid] = act
+        self._release(w)
+        if act in ("L", "B"):
+            act = self._pending.get(rid, "T")
+        if w.parked_at in ("L", "B"):
+            # inside try_lock: the event is recorded when the thread has left it
+            self._pending[rid] = act
+            spins = 0
+            while not fine and w.parked_at in ("L", "B"):
+                if w.parked_at == "B":
+                    spins += 1
+                    if spins > 3:
+                        return True         # the mutex is held by a parked thread: somebody else has to move first
+                self._release(w)
+            if w.parked_at in ("L", "B"):
+                return True
+        self._pending.pop(rid, None)
+        if rid in self._lin_done:           # its event was recorded at its linearization point already
+            self._lin_done.discard(rid)
+            self._lin_read.pop(rid, None)
+            return True
+        if act == "T" and rid in self._lin_read:
+            # try_lock returned without writing the flag: it was decided when the flag was read; the event belongs there
+            idx, (lock, clock) = self._lin_read.pop(rid)
+            self.events.insert(idx, {"r": rid, "act": "T", "lock": lock, "clock": clock})
+            self._last_act[rid] = "T"
+            return True
         lock, clock = self.probe()
         if act == "R" and w.parked_at != "W":
             # run_step returned "Stoptime reached" right after reading the clock: the spec's Write is a no-op there
             self.events.append({"r": rid, "act": "R", "lock": lock, "clock": clock})
             self.events.append({"r": rid, "act": "W", "lock": lock, "clock": clock})
         else:
-            if act == "U" and self._last_act.get(rid) in ("W", "T", "K"):
+            if act == "U" and self._last_act.get(rid) in ("W", "T", "K") and rid not in self.no_loop:
                 # the loop-exit test has no anchor of its own (for / while condition): the spec's Read with More = FALSE
                 self.events.append({"r": rid, "act": "R", "lock": self._last_state[0], "clock": self._last_state[1]})
             self.events.append({"r": rid, "act": act, "lock": lock, "clock": clock})
@@ -130,14 +302,14 @@ class Controller:
         self._last_state = (lock, clock)
         return True
 
-    def run(self, schedule):
+    def run(self, schedule, fine=False):
         for rid in schedule:
             if rid in self.workers:
-                self.advance(rid)
+                self.advance(rid, fine)
         guard = 0
         while self.runnable():
             for rid in list(self.runnable()):
-                self.advance(rid)
+                self.advance(rid, fine)
             guard += 1
             if guard > 10000:
                 raise Machinery("schedule does not terminate")
